@@ -175,7 +175,8 @@ def chain(index, rep, db):
     if ok:
         inl_ro = Inliner(ro)
         RP = [a.arg for a in ro.args.args]
-        a4 = [inl_ro.alternatives(a) or ["?"] for a in call[0].args[:4]]
+        from .core import through_helpers
+        a4 = [through_helpers(index.methods(RUN, "ScenarioRunner"), inl_ro, a) or ["?"] for a in call[0].args[:4]]
         # (constants, model, variables, monthly constants): constants and monthly constants are run_optimizer's own first two parameters,
         # model and variables are slots 0 and 1 of an optimiser call made with those same parameters (on every branch)
         ok = a4[0] == [RP[1]] and a4[3] == [RP[2]] and len(a4[1]) == len(a4[2]) >= 1
